@@ -7,6 +7,17 @@ import os
 import sys
 
 V = os.path.dirname(os.path.dirname(os.path.abspath(__file__)))
+
+
+def hook_commits():
+    """Commits of /repo that add the verif-tagged hook files (message starts with 'verif hook')."""
+    import subprocess
+    try:
+        out = subprocess.run(["git", "-C", "/repo", "log", "--format=%H %s"], capture_output=True, text=True).stdout
+        return [l.split(" ", 1)[0] for l in out.split("\n") if l.split(" ", 1)[-1].lower().startswith("verif hook")]
+    except Exception:
+        return []
+
 checks = []
 engines = {}
 for p in sorted(glob.glob(os.path.join(V, "checks", "C*.meta.json"))):
@@ -39,7 +50,7 @@ manifest = {
         "guard": "verif",
         "enable": "go build -tags verif (the harness under /verif/harness is always built with -tags verif against /repo)",
         "baseline_off_cmd": "cd /repo && go test -mod=mod -vet=off -count=1 -timeout 25m ./...",
-        "source_commits": json.load(open(os.path.join(V, "tools", "hook_commits.json"))) if os.path.exists(os.path.join(V, "tools", "hook_commits.json")) else [],
+        "source_commits": hook_commits(),
         "add_only": True,
     },
     "engines": [
